@@ -1,2 +1,5 @@
+import QuicProofs.Bridge.AckRanges
 import QuicProofs.Bridge.VarInt
 import QuicProofs.Props.C05VarInt
+import QuicProofs.Props.C16AckRanges
+import QuicProofs.Props.C16IntervalSet
